@@ -185,9 +185,10 @@ class G:
             return "gchars + %d" % d(st.integers(0, 16))
         if n == "int *":
             return d(st.sampled_from(["0", "&gint", "gints", "&gints[3]", "gints + 7", "&gstruct.b", "&gstruct.arr[2]", "(int *)0", "&gints[8] - 2",
-                                      "(int[]){ 1, 2, 3 }", "&gsint"]))
+                                      "(int[]){ 1, 2, 3 }", "&gsint", "&gints[8] - 2u", "gints + 9 - (unsigned short)3", "&gstruct.arr[3] - 1ul - 1u", "&gints[5] - U'\\2'"]))
         if n == "void *":
-            return d(st.sampled_from(["0", "(void *)0", "&gint", "gchars", "&gstruct", "(void *)&gints[5]", "&gptr", "(char *)&gstruct + 4"]))
+            return d(st.sampled_from(["0", "(void *)0", "&gint", "gchars", "&gstruct", "(void *)&gints[5]", "&gptr", "(char *)&gstruct + 4",
+                                      "(void *)(&gints[5] - 3u)", "gchars + 16 - 2u", "(void *)(gints + 9 - (unsigned char)4)", "&gstruct.arr[3] - 1ul - 2u"]))
         if n == "int (*)(void)":
             return d(st.sampled_from(["0", "gfunc", "&gfunc", "gfunc2"]))
         return "0"
